@@ -285,8 +285,19 @@ class ConnectionWorld(World):
             elif name == "assign_weight":
                 shape = tuple(conn.weight.shape)
                 nw = _wgen(op["seed"], shape, -2, 2)
-                with ctx.impl("assign weight", facts):
-                    conn.weight = nw
+                how = ("new", "iadd", "inplace_self")[op["seed"] % 3]
+                with ctx.impl("assign weight", dict(facts, how=how)):
+                    if how == "new":
+                        conn.weight = nw
+                    elif how == "iadd":
+                        # augmented assignment: the parameter is modified in place and handed back to the setter
+                        old = conn.weight.detach().clone()
+                        conn.weight += (nw - old)
+                        nw = old + (nw - old)
+                    else:
+                        conn.weight.copy_(nw)
+                        conn.weight = conn.weight
+                ctx.fault("weight_assigned_" + how)
                 W = _f64(nw)
                 if ck == "lateral":
                     W = W * (1 - np.eye(W.shape[0]))
